@@ -125,6 +125,21 @@ def _preimport():
 # ---------------------------------------------------------------------------------------------- data bursts
 
 
+def _sync_constant_clause(sp, table_value: int, name: str):
+    """the library's 48 SYNC bits (public as_bits(), not the enum's internal value) are those of table 9.2"""
+    st, sb = call(sp.as_bits)
+    got = gf2.bits_to_int(_ba(sb).tolist())
+    if len(sb) != 48 or got != table_value:
+        raise Fail("sync_constant_equals_table_9_2", "%012X" % got, "%012X" % table_value, klass=name)
+
+
+def _intval(x) -> int:
+    """protocol value of an element that may be an enum member or a plain int / bool"""
+    import enum as _enum
+
+    return int(x.value) if isinstance(x, _enum.Enum) else int(x)
+
+
 def _lib():
     from okdmr.dmrlib.etsi.layer2.burst import Burst
     from okdmr.dmrlib.etsi.layer2.elements.burst_types import BurstTypes
@@ -159,14 +174,17 @@ def _repeat_after_scribble(fn, what: str):
     st, r1 = call(fn)
     saved = _ba(r1)
     if isinstance(r1, bitarray):
-        r1.invert()
+        try:
+            r1.invert()
+        except TypeError:
+            pass  # an immutable (frozen) buffer cannot be scribbled on - nothing to check
     st, r2 = call(fn)
     if _ba(r2) != saved:
         raise Fail("repeated_call_equal_after_scribbling_on_returned_buffer", _diffpos(_ba(r2), saved), "no difference", klass=what)
     return saved
 
 
-def _check_serialised(kind, variant, cc, sync, pdu, raw: bytes):
+def _check_serialised(kind, variant, f, cc, sync, pdu, raw: bytes):
     """every clause of the statement's first sentence for one serialisation `raw` of (pdu, cc, sync): independent layout
     reference, parse back (data type, colour code, sync, payload fields), re-assembly."""
     Burst, BurstTypes, DataTypes, SyncPatterns, SlotType = _lib()
@@ -175,15 +193,12 @@ def _check_serialised(kind, variant, cc, sync, pdu, raw: bytes):
     st, pb = call(pdu.as_bits)
     pdu_bits = _ba(pb)
     bits = _from_bytes(raw)
-    # field values of the object that was serialised (taken after serialising: a check field the library fills in while
-    # serialising belongs to what was sent)
-    before = G.dump(pdu)
 
     # (R) layout
     exp_sync = _ba(gf2.int_to_bits(DATA_SYNCS[sync], 48))
     if bits[108:156] != exp_sync:
         raise Fail("layout_sync_at_108_155", bits[108:156].to01(), exp_sync.to01())
-    exp_slot = _ba(gf2.ref_encode("golay_20_8_7", gf2.int_to_bits(cc, 4) + gf2.int_to_bits(dt.value, 4)))
+    exp_slot = _ba(gf2.ref_encode("golay_20_8_7", gf2.int_to_bits(cc, 4) + gf2.int_to_bits(DT_VALUES[G.DATA_TYPE_OF_KIND[kind]], 4)))
     got_slot = bits[98:108] + bits[156:166]
     if got_slot != exp_slot:
         raise Fail("layout_slot_type_golay_codeword_split_10_10", got_slot.to01(), exp_slot.to01())
@@ -215,13 +230,16 @@ def _check_serialised(kind, variant, cc, sync, pdu, raw: bytes):
         raise Fail("parsed_colour_code", pcc, cc)
     if p.sync_or_embedded_signalling != sp:
         raise Fail("parsed_sync_pattern", str(p.sync_or_embedded_signalling), str(sp))
-    if type(p.data).__name__ != G.expected_class_name(kind):
+    if not isinstance(p.data, G.expected_class(kind)):
         raise Fail("parsed_payload_class", type(p.data).__name__, G.expected_class_name(kind))
     parsed_pdu = p.data
     if kind in ("rate12", "rate34", "rate1"):
         st, parsed_pdu = call(p.data.convert, G.rate_type(kind, variant))
-    after = G.dump(parsed_pdu)
-    d = G.diff_dumps(after, before)
+    # payload field values: generated fields + library-computed check fields + attributes common to both objects (the
+    # assembled object is read after serialising: a check field filled in while serialising belongs to what was sent)
+    d, notes = G.compare_payload_fields(kind, variant, f, pdu, parsed_pdu)
+    if notes:
+        _SIDE.setdefault("notes", set()).update(notes)
     if d:
         raise Fail("parsed_payload_fields_equal", d[:6], "parsed == assembled (field by field)", klass=f"{kind}:{variant}")
 
@@ -238,15 +256,14 @@ def oracle_data(case):
     kind, variant, f, cc, sync = case["kind"], case["variant"], case["f"], case["cc"], case["sync"]
     dt = DataTypes[G.DATA_TYPE_OF_KIND[kind]]
     sp = SyncPatterns[sync]
-    if sp.value != DATA_SYNCS[sync]:
-        raise Fail("sync_constant_equals_table_9_2", "%012X" % sp.value, "%012X" % DATA_SYNCS[sync], klass=sync)
+    _sync_constant_clause(sp, DATA_SYNCS[sync], sync)
 
     st, pdu = call(G.build, kind, variant, f)
     st, pb = call(pdu.as_bits)
     _SIDE["nonzero"] = _ba(pb).any()
     st, b = call(_new_burst, pdu, cc, dt, sp)
     raw = _as_33_bytes(b)
-    p = _check_serialised(kind, variant, cc, sync, pdu, raw)
+    p = _check_serialised(kind, variant, f, cc, sync, pdu, raw)
 
     # a buffer that was handed out is not rewritten by later serialisations (shared scratch buffers)
     st, kept = call(b.as_bits)
@@ -322,8 +339,8 @@ def oracle_reuse(case):
     pdu2, bytes2 = fresh(s2)
     _SIDE["nonzero"] = bytes1 != bytes2
     # the fresh serialisations are what data_grid judges; judge them here too so that "equal to fresh" means "right"
-    _check_serialised(s1[0], s1[1], s1[3], s1[4], pdu1, bytes1)
-    _check_serialised(s2[0], s2[1], s2[3], s2[4], pdu2, bytes2)
+    _check_serialised(*s1, pdu1, bytes1)
+    _check_serialised(*s2, pdu2, bytes2)
     if fresh(s1)[1] != bytes1:
         raise Fail("fresh_assembly_repeatable", "two fresh assemblies of the same case differ", "equal bytes")
 
@@ -480,6 +497,8 @@ def _tally_data(sub, c, t: Tally):
         t.cls(sub, "sync=" + c["sync"])
     for m in c["f"].get("_excluded", []):
         t.excluded[m] += 1
+    for n in sorted(_SIDE.get("notes", ())):
+        t.cls(sub, n)
     t.sample(sub, c)
 
 
@@ -568,8 +587,7 @@ def oracle_voice(case):
     voice = _ba(gf2.int_to_bits(int(case["voice"], 16), 216))
     if case["center"] == "sync":
         sp = SyncPatterns[case["sync"]]
-        if sp.value != VOICE_SYNCS[case["sync"]]:
-            raise Fail("sync_constant_equals_table_9_2", "%012X" % sp.value, "%012X" % VOICE_SYNCS[case["sync"]], klass=case["sync"])
+        _sync_constant_clause(sp, VOICE_SYNCS[case["sync"]], case["sync"])
         center = _ba(gf2.int_to_bits(VOICE_SYNCS[case["sync"]], 48))
     else:
         emb = _ba(gf2.ref_encode("qr_16_7_6", gf2.int_to_bits(case["cc"], 4) + [case["pi"]] + gf2.int_to_bits(case["lcss"], 2)))
@@ -609,7 +627,7 @@ def oracle_voice(case):
         else:
             if b.emb is None:
                 raise Fail("embedded_signalling_recognised", [str(b.sync_or_embedded_signalling), b.has_emb], "an EMB PDU")
-            got = [b.emb.colour_code, b.emb.preemption_and_power_control_indicator.value, b.emb.link_control_start_stop.value]
+            got = [_intval(b.emb.colour_code), _intval(b.emb.preemption_and_power_control_indicator), _intval(b.emb.link_control_start_stop)]
             if got != [case["cc"], case["pi"], case["lcss"]]:
                 raise Fail("emb_fields_equal", got, [case["cc"], case["pi"], case["lcss"]])
             st, pcc = call(lambda: b.colour_code)
